@@ -161,6 +161,14 @@ func (m *Monitor) onSend(r *Replica, mm *pb.Message) {
 		}
 		if mm.Type == pb.MsgVoteResp {
 			m.s.count("votes_granted", 1)
+			// "one vote per term, persisted before it is answered": when the
+			// grant leaves, the storage must hold this vote, or already a later
+			// term (then the replica can never vote in mm.Term again). A replica
+			// that just became leader may send before persisting (sendingEarly).
+			if hs := r.hsCur; !r.sendingEarly && !(hs.Term > mm.Term || (hs.Term == mm.Term && hs.Vote == mm.To)) {
+				m.s.violate("vote-sent-before-persisted", []string{"C01", "C03"}, "replica %d releases a granting MsgVoteResp to %d for term %d while its persisted hard state is {term %d, vote %d}: a crash now forgets the vote", r.id, mm.To, mm.Term, hs.Term, hs.Vote)
+				return
+			}
 			m.regVote(r, mm.Term, mm.To, "MsgVoteResp")
 		}
 	}
